@@ -491,13 +491,13 @@ class RealWorker:
         self.p = subprocess.Popen([sys.executable, str(Path(__file__).resolve().parent / "real_worker.py")],
                                   stdin=subprocess.PIPE, stdout=subprocess.PIPE, text=True, bufsize=1)
 
-    def run(self, text, fs, inputs_list, backend="llvm", feedback=False, capacity=None, timeout=120):
+    def run(self, text, fs, inputs_list, backend="llvm", feedback=False, capacity=None, timeout=120, stack=None):
         import json
         import select
 
         if self.p is None or self.p.poll() is not None:
             self._start()
-        req = {"text": text, "fs": fs, "backend": backend, "feedback": feedback, "capacity": capacity,
+        req = {"text": text, "fs": fs, "backend": backend, "feedback": feedback, "capacity": capacity, "stack": stack,
                "inputs_list": [{n: ([[list(c), v] for c, v in cv.items()], list(dims)) for n, (cv, dims) in ins.items()} for ins in inputs_list]}
         try:
             self.p.stdin.write(json.dumps(req) + "\n")
